@@ -84,6 +84,33 @@ func init() {
 					c := inst(p, harness, params...)
 					c.PanicIsViol = panicViol
 					c.MaxWallS = wall
+					if nmax < 0 && n <= 16 {
+						c.MaxWallS = wall * 3 // short bodies are cheap to finish and carry most header logic
+					}
+					r = append(r, c)
+				}
+			}
+		}
+		return r
+	}
+	// file-level instances: every skeleton file, all-concrete (leaf -1) and with each leaf box in
+	// turn replaced by fully symbolic bytes
+	fileInstances := func(harness, tier string, variants [][]string) []*HarnessCfg {
+		var r []*HarnessCfg
+		kinds := []string{"init", "plain", "seg", "seg2f", "2seg", "sidx2", "nostyp", "emsg", "mfra"}
+		for _, k := range kinds {
+			maxLeaf := 26
+			for leaf := -1; leaf < maxLeaf; leaf++ {
+				if tier != "thorough" && leaf >= 0 && (k == "plain" || k == "2seg" || k == "seg") && leaf%3 != 0 {
+					continue
+				}
+				for _, v := range variants {
+					c := inst(mod+"/mp4", harness, append([]string{k, itoa(leaf)}, v...)...)
+					c.PanicIsViol = false
+					c.MaxWallS = 20
+					if tier == "thorough" {
+						c.MaxWallS = 120
+					}
 					r = append(r, c)
 				}
 			}
@@ -109,6 +136,7 @@ func init() {
 		Instances: func(tier string, L *Loaded) []*HarnessCfg {
 			r := boxInstances(L, "VerifC01Box", tierN(tier, -128, 96), tierW(tier, 3, 20), [][]string{{"false", "false"}, {"false", "true"}}, false)
 			r = append(r, boxInstances(L, "VerifC01Box", tierN(tier, -32, 40), tierW(tier, 2, 10), [][]string{{"true", "false"}}, false)...)
+			r = append(r, fileInstances("VerifC01File", tier, [][]string{{"false"}, {"true"}})...)
 			return r
 		},
 		Bounds: func(tier string) map[string]interface{} {
@@ -157,7 +185,8 @@ func init() {
 		Patterns: []string{"./mp4"},
 		InitPkgs: []string{mod + "/mp4"},
 		Instances: func(tier string, L *Loaded) []*HarnessCfg {
-			return boxInstances(L, "VerifC02Box", tierN(tier, -128, 96), tierW(tier, 3, 20), [][]string{{"false"}}, false)
+			r := boxInstances(L, "VerifC02Box", tierN(tier, -128, 96), tierW(tier, 3, 20), [][]string{{"false"}}, false)
+			return append(r, fileInstances("VerifC02File", tier, [][]string{{}})...)
 		},
 		Bounds: func(tier string) map[string]interface{} {
 			return map[string]interface{}{"box_body_bytes_max": tierN(tier, 40, 128), "per_instance_time_cap_s": tierW(tier, 4, 60)}
@@ -169,7 +198,8 @@ func init() {
 		Patterns: []string{"./mp4"},
 		InitPkgs: []string{mod + "/mp4"},
 		Instances: func(tier string, L *Loaded) []*HarnessCfg {
-			return boxInstances(L, "VerifC03Box", tierN(tier, -128, 96), tierW(tier, 3, 20), [][]string{{"false"}}, false)
+			r := boxInstances(L, "VerifC03Box", tierN(tier, -128, 96), tierW(tier, 3, 20), [][]string{{"false"}}, false)
+			return append(r, fileInstances("VerifC03File", tier, [][]string{{}})...)
 		},
 		Bounds: func(tier string) map[string]interface{} {
 			return map[string]interface{}{"box_body_bytes_max": tierN(tier, 40, 128), "per_instance_time_cap_s": tierW(tier, 4, 60)}
@@ -408,11 +438,11 @@ func init() {
 			}
 			pats := []pat{
 				{1, "F0", "2"}, {1, "F0F0", "21"}, {1, "F0F0F0", "102"}, {1, "T0T0", "12"}, {1, "S0S0", "11"},
-				{1, "M0", "21"}, {1, "I0", "12"}, {1, "F0|F0F0", "121"}, {1, "M0F0", "111"},
-				{2, "T0T1", "12"}, {2, "T0T1T0", "121"}, {2, "T1T1", "21"}, {2, "S0T1S0", "112"}, {2, "T0T1|T1", "111"},
+				{1, "M0", "21"}, {1, "I0", "12"}, {1, "F0|F0F0", "121"}, {1, "M0|F0", "111"},
+				{2, "T0T1", "12"}, {2, "T0T1T0", "121"}, {2, "T1T1", "21"}, {2, "S0S1S0", "112"}, {2, "T0T1|T1", "111"},
 			}
 			if tier == "thorough" {
-				pats = append(pats, pat{1, "F0F0F0F0", "1230"}, pat{1, "M0M0", "1212"}, pat{1, "I0|I0", "1221"}, pat{1, "S0F0T0", "123"},
+				pats = append(pats, pat{1, "F0F0F0F0", "1230"}, pat{1, "M0M0", "1212"}, pat{1, "I0|I0", "1221"}, pat{1, "S0S0|T0", "123"},
 					pat{2, "T0T1T0T1", "1212"}, pat{2, "S1S0S1", "321"}, pat{2, "T0T0|T1T1", "1122"}, pat{2, "T1|T0T1", "211"}, pat{3, "T0T2T1", "111"})
 			}
 			for i, pt := range pats {
